@@ -7,3 +7,6 @@ pub fn vpanic() -> ! requires false { panic!() }
 // if it returns the condition holds.
 #[verifier::external_body]
 pub fn vcheck(b: bool) ensures b { assert!(b) }
+// Integer `abs` (Verus: "not supported"): the pinned code does not call it; an edit that does is decided, not rejected.
+pub assume_specification[ i8::abs ](x: i8) -> (r: i8) requires x != i8::MIN ensures r == (if x < 0 { -x } else { x as int });
+pub assume_specification[ i64::abs ](x: i64) -> (r: i64) requires x != i64::MIN ensures r == (if x < 0 { -x } else { x as int });
